@@ -3,7 +3,7 @@
    proofs/C13_Total.v. *)
 From Lib Require Import Bytes Cid.
 From Model Require Import C13_DagCbor C13_IpldSchema.
-From Proofs Require Import C13_DagCbor C13_IpldSchema C13_Total C13_Output.
+From Proofs Require Import C13_DagCbor C13_IpldSchema C13_Total C13_Output C13_Validate.
 Open Scope N_scope.
 
 (* ---- value <-> IPLD node (bindnode against schema.ipldsch) ---- *)
@@ -137,3 +137,28 @@ Theorem typed_load_output_reencodes :
        (n <- generic_load (chunk_encode c) ;; unwrap_chunk n) = Ok c).
 Proof. exact typed_load_output_reencodes_proved. Qed.
 Print Assumptions typed_load_output_reencodes.
+
+(* ---- Advertisement.Validate and the codec ---- *)
+
+(* Validate (context ID <= MaxContextIDLen, metadata <= MaxMetadataLen; constants read from
+   schema.go by astgen) is a function of the value: storing and reloading does not change it *)
+Theorem validate_preserved_by_roundtrip :
+  forall a : ad, wf_ad a = true ->
+    exists a', typed_load_ad (ad_encode a) = Ok a' /\ validate a' = validate a.
+Proof. exact validate_preserved_by_roundtrip_proved. Qed.
+Print Assumptions validate_preserved_by_roundtrip.
+
+(* its limits lie inside what the codec carries *)
+Theorem validate_within_codec_limits :
+  forall a : ad, validate a = true -> blen (a_ctx a) <= MaxStr /\ blen (a_meta a) <= MaxStr.
+Proof. exact validate_within_codec_limits_proved. Qed.
+Print Assumptions validate_within_codec_limits.
+
+(* the relation that does NOT hold: a decoded block need not validate (nothing on the decode
+   path calls Validate): witness = an advertisement whose context ID is one byte over the limit *)
+Theorem decode_does_not_imply_validate :
+  wf_bytes (ad_encode over_limit_ad) = true /\
+  typed_load_ad (ad_encode over_limit_ad) = Ok over_limit_ad /\
+  validate over_limit_ad = false.
+Proof. exact decode_does_not_imply_validate_proved. Qed.
+Print Assumptions decode_does_not_imply_validate.
